@@ -183,6 +183,17 @@ def generate(tier, seed):
                         if reg[1] - reg[0] > 0 and (reg[1] - reg[0]) / min(np.atleast_1d(sp)) > 40:
                             continue
                         cases.append(core.guarded(lambda: grid_case(vd, reg, None, sp, adj, pix, extra, mesh, "grid-spacing"), {"fn": "grid_case"}, "grid_case"))
+    # regions whose (W, E) bounds are the same numbers as their (S, N) bounds, with per-direction spacings / non-square
+    # shapes: the two directions must still be built independently
+    for reg in [(0.0, 10.0, 0.0, 10.0), (-3.0, 4.5, -3.0, 4.5)]:
+        for sp in [(2.5, 1.0), (1.0, 2.5), (3.0, 4.0), (0.75, 1.5)]:
+            for adj in (0, 1):
+                for pix in (False, True):
+                    cases.append(core.guarded(lambda: grid_case(vd, reg, None, sp, adj, pix, None, bool(adj) or pix, "grid-square-region"),
+                                              {"fn": "grid_coordinates", "region": list(reg), "spacing": sp, "adjust": ADJ[adj], "pixel_register": pix}, "grid-square-region"))
+        for shp in [(2, 5), (5, 2), (3, 4)]:
+            cases.append(core.guarded(lambda: grid_case(vd, reg, shp, None, 0, shp[0] > 2, None, True, "grid-square-region"),
+                                      {"fn": "grid_coordinates", "region": list(reg), "shape": list(shp)}, "grid-square-region"))
     for reg in [(5.0, 0.0, 0.0, 1.0), (0.0, 1.0, 2.0, 1.0), (0.0, 1.0, 0.0), (0.0, 1.0, 0.0, 1.0, 2.0)]:
         cases.append(core.guarded(lambda: grid_case(vd, reg, (3, 3), None, 0, False, None, True, "grid-invalid"), {"fn": "grid_case"}, "grid_case"))
     cases.append(core.guarded(lambda: grid_case(vd, (0.0, 1.0, 0.0, 1.0), (3, 3), 0.5, 0, False, None, True, "grid-invalid"), {"fn": "grid_case"}, "grid_case"))
